@@ -11,12 +11,14 @@ H(a, c) == hist' = Append(hist, [a |-> a, c |-> c, now |-> now])
 GNext ==
   \/ \E c \in Callers :
         \/ Start(c) /\ H("Start", c)
+        \/ EnterRecv(c) /\ UNCHANGED hist
         \/ Recv(c) /\ H("Recv", c)
         \/ PollTimeout(c) /\ H("PollTimeout", c)
         \/ Deadline(c) /\ H("Deadline", c)
         \/ Cancel(c) /\ H("Cancel", c)
-  \/ /\ Arrive
-     /\ hist' = Append(hist, [a |-> "Arrive", k |-> inq'[Len(inq')].k, id |-> inq'[Len(inq')].id, now |-> now])
+  \/ \E k \in Kinds, i \in Ids :
+        /\ ArriveKI(k, i)
+        /\ hist' = Append(hist, [a |-> "Arrive", k |-> k, id |-> i, now |-> now])
   \/ Advance /\ UNCHANGED hist
 
 GInit == Init /\ hist = <<>>
